@@ -315,8 +315,10 @@ class Ctx:
         ev = {"property_id": self.pid, "tier": self.tier, "seed": self.seed, "level": "proof",
               "coverage": self.cov, "assumptions": self.assumptions, "wall_s": round(wall, 2),
               "violations": len(self.violations) + (1 if (self.broken and not self.violations) else 0)}
-        os.makedirs(os.path.join(VERIF, "evidence"), exist_ok=True)
-        with open(os.path.join(VERIF, "evidence", self.pid + ".json"), "w") as f:
+        # runs against a scratch copy (seeded changes) must not overwrite the evidence of the real tree
+        evdir = os.path.join(VERIF, "evidence") if REPO == "/repo" else os.path.join(BUILD, "evidence-scratch")
+        os.makedirs(evdir, exist_ok=True)
+        with open(os.path.join(evdir, self.pid + ".json"), "w") as f:
             json.dump(ev, f, indent=1, default=str)
         print("%s %s: obligations %d/%d, evaluations %d, %.1fs, %s" % (
             self.pid, self.tier, self.cov.get("discharged", 0), self.cov.get("obligations", self.cov.get("obligations_total", 0)), self.cov["evaluations"], wall,
